@@ -88,15 +88,10 @@ def extract_frontend(path):
     if r.returncode != 0 or not r.stdout:
         raise FactsError("cannot parse front-end copy %s:\n%s" % (path, r.stderr[-2000:]))
     src = r.stdout
-    out = []
-    found = []
     import re
-    for name in FRONTEND_FNS:
-        m = re.search(r"^(pub )?fn %s\b" % re.escape(name), src, re.M)
-        if not m:
-            continue
-        i = src.index("{", m.start())
-        # the body starts at the first `{` that is not inside the signature's generics: signatures here have none
+
+    def item_at(start):
+        i = src.index("{", start)
         depth = 0
         j = i
         while j < len(src):
@@ -114,11 +109,32 @@ def extract_frontend(path):
                 if depth == 0:
                     break
             j += 1
-        item = src[m.start():j + 1]
+        return src[start:j + 1]
+
+    # every free function at the top level of the file ...
+    items = {}
+    for m in re.finditer(r"^(?:pub )?(?:unsafe )?fn ([A-Za-z_][A-Za-z0-9_]*)\b", src, re.M):
+        if m.group(1) not in items:
+            items[m.group(1)] = item_at(m.start())
+    # ... restricted to what `parse_float` (the front-end's entry point) references, transitively: helper functions that a
+    # refactoring adds or renames are picked up, test functions and `main` are not
+    found = []
+    todo = ["parse_float"]
+    while todo:
+        name = todo.pop()
+        if name in found or name not in items:
+            continue
+        found.append(name)
+        body = items[name]
+        for ident in set(re.findall(r"\b([A-Za-z_][A-Za-z0-9_]*)\s*(?:::\s*<[^>]*>\s*)?\(", body)):
+            if ident in items and ident not in found:
+                todo.append(ident)
+    out = []
+    for name in sorted(found):
+        item = items[name]
         if not item.startswith("pub "):
             item = "pub " + item
         out.append("#[inline]\n" + item)
-        found.append(name)
     return "\n\n".join(out) + "\n", found
 
 
